@@ -1,6 +1,7 @@
 import AasVerif.Lemmas.XsdTables
 import AasVerif.Lemmas.XsdTop
 import AasVerif.Lemmas.XsdReadSet
+import AasVerif.Lemmas.XsdMatchBRead
 import AasVerif.Props.C16
 import AasVerif.Gen.Xsd
 import AasVerif.Gen.Retree
@@ -244,5 +245,69 @@ example : ∃ r t, parse [.str [94, 91, 92, 120, 53, 101, 97, 45, 99, 45, 93, 12
     translate Gen.Xsd.xsdLiteral Gen.Xsd.xsdRange
       [94, 91, 92, 120, 53, 101, 97, 45, 99, 45, 93, 123, 50, 44, 125, 124, 98, 92, 36, 36] = .ok t :=
   ⟨_, _, rfl, by simp [Retree.Union.uniates], rfl⟩
+
+/-! ### The executable matcher is the semantics
+
+`XsdRe.matchB` is what the driver answers for every `match` request of the correspondence (and what is
+compared with `xmlschema` there); `XsdRe.Matches` is what the theorems above are stated in. -/
+
+/-- **The matcher is sound, for every tree**: a text it accepts is matched in the denotational
+semantics. -/
+theorem matchB_sound (x : Union) (s : Text) (h : XsdRe.matchB x s = true) : XsdRe.Matches x s :=
+  XsdRe.matchB_sound x s h
+
+/-- **The matcher decides the semantics on every tree without `sym` nodes** (`^`, `$`, the Python dot):
+soundness and completeness; the number of rounds of a repetition (`s.length + q.min`) is enough. -/
+theorem matchB_iff_matches (x : Union) (hns : XsdRe.nsUnion x = true) (s : Text) :
+    XsdRe.matchB x s = true ↔ XsdRe.Matches x s :=
+  XsdRe.matchB_iff x hns s
+
+/-- The statement for *every* tree is false: the matcher has no clause for `Value.sym`
+(the Python dot here; `.` of XML Schema is read as the set `[^\n\r]`). -/
+theorem matchB_complete_full_fails :
+    ¬ (∀ (x : Union) (s : Text), XsdRe.Matches x s → XsdRe.matchB x s = true) := by
+  intro h
+  have hm : XsdRe.Matches (.mk [.mk [.mk (.sym .dot) none]]) [97] :=
+    .mk _ [.mk (.sym .dot) none] [] [97] [] (List.mem_singleton.mpr rfl)
+      (MTerms_single_iff.mpr (.plain _ _ _ _ (.dot 97 [] [] (by decide))))
+  have := h _ _ hm
+  revert this
+  decide
+
+/-- **The reader never produces such a node** — for every text, not only for translated patterns. -/
+theorem read_has_no_sym (t : Text) (x : Union) (h : XsdRe.read t = .ok x) : XsdRe.nsUnion x = true :=
+  XsdRe.read_ns h
+
+/-- **What the driver computes is what the theorems speak about**: for every text `t` the reader
+accepts, the executable matcher on the tree read decides `Matches` for every text `s`. -/
+theorem read_matchB_decides (t : Text) (x : Union) (h : XsdRe.read t = .ok x) (s : Text) :
+    XsdRe.matchB x s = true ↔ XsdRe.Matches x s :=
+  XsdRe.read_matchB_iff h s
+
+/-- … and so does every remainder set: `r` is reported after a match at the beginning of `s` iff `s`
+splits into a match (in any context) and `r`. -/
+theorem read_remainders_exact (t : Text) (x : Union) (h : XsdRe.read t = .ok x) (pre post s r : Text) :
+    r ∈ XsdRe.remUnion x s ↔ ∃ s₁, s = s₁ ++ r ∧ MUnion x pre s₁ post :=
+  XsdRe.mem_remUnion_iff x (XsdRe.read_ns h) pre post s r
+
+/-- A tree the reader produces matches independently of the context: the implicit anchoring of
+`Matches` (`pre = post = []`) is no restriction. -/
+theorem read_matches_context_free (t : Text) (x : Union) (h : XsdRe.read t = .ok x) (pre s post : Text) :
+    MUnion x pre s post ↔ XsdRe.Matches x s :=
+  ⟨XsdRe.ns_context_free x (XsdRe.read_ns h) pre s post [] [],
+   XsdRe.ns_context_free x (XsdRe.read_ns h) [] s [] pre post⟩
+
+/-- **C13b on the executable matcher.** The matcher the driver runs accepts, for the written pattern,
+every text without line breaks that the meta-model pattern accepts. -/
+theorem pattern_superset_matchB (p t : Text) (r : Regex) (hp : parse [.str p] = .ok r) (hne : r.uniates ≠ [])
+    (ht : translate Gen.Xsd.xsdLiteral Gen.Xsd.xsdRange p = .ok t) :
+    ∃ x, XsdRe.read t = .ok x ∧ ∀ s, NoLB s → FullMatch r s → XsdRe.matchB x s = true := by
+  obtain ⟨x, hx, hall⟩ := pattern_superset p t r hp hne ht
+  exact ⟨x, hx, fun s hn hm => (XsdRe.read_matchB_iff hx s).mpr (hall s hn hm)⟩
+
+/-- non-vacuity: `a[b-c]*(d|e).` is read, the tree has no `sym` node, and the matcher accepts `abcdx` -/
+example : ∃ x, XsdRe.read [97, 91, 98, 45, 99, 93, 42, 40, 100, 124, 101, 41, 46] = .ok x ∧
+    XsdRe.nsUnion x = true ∧ XsdRe.matchB x [97, 98, 99, 100, 120] = true :=
+  ⟨_, rfl, by decide, by decide⟩
 
 end AasVerif.Props.C13
